@@ -494,10 +494,8 @@ Qed.
 
 Lemma closeb_iff : forall am rm p, closeb am rm p = true <-> close am rm p.
 Proof.
-  intros am rm [[v|a] [t|b]]; cbn [closeb close].
+  intros am rm [[v|a|] [t|b|]]; cbn [closeb close]; try (split; [discriminate|contradiction]).
   - apply near_iff.
-  - split; [discriminate|contradiction].
-  - split; [discriminate|contradiction].
   - apply String.eqb_eq.
 Qed.
 
